@@ -553,6 +553,21 @@ def call_values(I, c, args, e=None, env=None):
             if isinstance(o, Opaque):
                 return Opaque("%s.unwrap" % o.name)
             return o
+        if name == "map" and isinstance(o, Opt) and len(args) == 2 and isinstance(args[1], (Closure, FnItem)):
+            # Option::map / Result::map: the payload is transformed exactly when it is present
+            if o.some is False:
+                return Opt(False)
+            if o.some is True:
+                return Opt(True, I.apply(args[1], [o.payload]))
+            n0 = len(I.cond_stack)
+            I.cond_stack.append(o.some)
+            try:
+                pv = I.apply(args[1], [o.payload])
+            finally:
+                del I.cond_stack[n0:]
+            return Opt(o.some, pv)
+        if name in ("as_deref", "as_deref_mut", "as_ref", "as_mut", "copied", "cloned", "as_slice") and isinstance(o, Opt):
+            return o
         if name in ("is_some", "is_none") and isinstance(o, Opt):
             if isinstance(o.some, bool):
                 return Cond("const", o.some == (name == "is_some"))
